@@ -89,12 +89,12 @@ func vNewVMWorld(payloadBase, payloadN int, uncatchable bool) *vVMWorld {
 	w.vm = m
 	w.r.vm = m
 	m.maxCallStackSize = 1 << 30
-	// operand stack: 6 slots, sp = 4
-	m.stack = make(valueStack, 6)
+	// operand stack: 4 slots, sp = 2
+	m.stack = make(valueStack, 4)
 	for i := range m.stack {
 		m.stack[i] = valueInt(100 + i)
 	}
-	m.sp = 4
+	m.sp = 2
 	w.sp0 = m.sp
 	m.sb = vNondetInt("sb")
 	m.pc = vNondetInt("pc")
